@@ -9,6 +9,7 @@ R6 Vfs::init refuses a second INIT and publishes `initialized` after the backend
 R5 (cont.) exact switch-on condition of each backend toggle as a truth table over (under-vfs, configured, offered)
 R8 release/releasedir obey their own toggle (shared with C15.R3); R1-options-roundtrip toggles survive save/restore (shared with C19.R1)
 R9 a successful INIT records (InitIn.major, InitIn.minor) before it answers
+R8 (cont.) configured toggles are read by init only; FUSE_ATTR_DAX is set only where per-file DAX was negotiated; Vfs::destroy destroys every backend and clears `initialized`
 """
 import json
 import os
